@@ -9,6 +9,7 @@ import (
 	"github.com/zishang520/engine.io-go-parser/packet"
 	"github.com/zishang520/engine.io/v2/log"
 	"github.com/zishang520/engine.io/v2/types"
+	"github.com/zishang520/engine.io/v2/utils"
 	"github.com/zishang520/engine.io/v2/verifhook"
 	"github.com/zishang520/engine.io/v2/webtransport"
 )
@@ -22,6 +23,13 @@ type webTransport struct {
 
 	session *types.WebTransportConn
 	mu      sync.Mutex
+
+	// batches handed to the writer goroutine that have not been written yet, and
+	// whether the session has to be closed once they are
+	sendMu        sync.Mutex
+	inflight      int
+	closeWhenIdle bool
+	closeTimer    *utils.Timer
 }
 
 // WebTransport transport
@@ -120,9 +128,13 @@ func (w *webTransport) onMessage(data types.BufferInterface) {
 // Writes a packet payload.
 func (w *webTransport) Send(packets []*packet.Packet) {
 	w.SetWritable(false)
+	w.sendMu.Lock()
+	w.inflight++
+	w.sendMu.Unlock()
 	go w.send(packets)
 }
 func (w *webTransport) send(packets []*packet.Packet) {
+	defer w.sent()
 	if verifhook.Enabled {
 		verifhook.Point("wt.send.start", w, packets)
 	}
@@ -229,8 +241,33 @@ func (w *webTransport) write(data types.BufferInterface, _ bool) {
 // Closes the transport.
 func (w *webTransport) DoClose(fn types.Callable) {
 	wt_log.Debug(`closing WebTransport session`)
-	defer w.session.CloseWithError(0, "")
 	if fn != nil {
 		fn()
+	}
+	w.sendMu.Lock()
+	// packets accepted before the close may still be with the writer goroutine: let
+	// them reach the wire, the last writer closes the connection
+	wait := w.inflight > 0 && !w.Discarded()
+	if wait {
+		w.closeWhenIdle = true
+		// a peer that stopped reading must not keep the connection for ever
+		w.closeTimer = utils.SetTimeout(func() { w.session.CloseWithError(0, "") }, closeTimeout)
+	}
+	w.sendMu.Unlock()
+	if !wait {
+		w.session.CloseWithError(0, "")
+	}
+}
+
+// sent accounts for a batch that has left the writer goroutine.
+func (w *webTransport) sent() {
+	w.sendMu.Lock()
+	w.inflight--
+	closeNow := w.closeWhenIdle && w.inflight == 0
+	timer := w.closeTimer
+	w.sendMu.Unlock()
+	if closeNow {
+		utils.ClearTimeout(timer)
+		w.session.CloseWithError(0, "")
 	}
 }
